@@ -48,6 +48,11 @@ OKRULE = "table(sub) cA > cB; endtable;\n"
 DEEP_LIST = H + "table(glyph) cB = glyphid(7); cA = glyphid(3) {" + "; ".join("q%d = %d" % (i, i % 100) for i in range(70000)) + "}; endtable;\ntable(sub) cA > cB; endtable;\n"
 
 CORPUS = [
+    # an insertion as the first item of a rule that changes nothing else, in a pass without leading contexts: the pass
+    # optimization (default; off with -p) has to find the rule's key slot behind the inserted item
+    ("leading-insertion-only-rule", H + "table(glyph) cA = glyphid(3..6); cB = glyphid(7..10); cX = glyphid(11); endtable;\ntable(sub) _ > cX:2 / _ cB ^; endtable;\n", None, {}),
+    ("leading-insertion-only-rule-two-passes", H + "table(glyph) cA = glyphid(3..6); cB = glyphid(7..10); cX = glyphid(11); endtable;\n"
+     "table(sub) pass(1) cA > cB; endpass; pass(2) _ > cX:2 / _ cB; _ _ > cX:3 cX:3 / _ _ cA; endpass; endtable;\n", None, {}),
     # renaming a font whose family name is also given in a language that sorts before English under (3,1)
     ("rename-piglatin-with-german-family-name", "", ["-q", "p.gdl", "in.ttf", "out.ttf", "Renamed Font"], {"special": "piglatin-german-family"}),
     ("rename-family-name-in-two-languages", H + G + OKRULE, ["-q", "p.gdl", "in.ttf", "out.ttf", "Renamed Font"],
